@@ -26,7 +26,7 @@ RULE = ("78 builtin models (multiplicity models at several multiplicities, P@S t
 ASSUMPTIONS = ["bumps is replaced by a minimal stub of bumps.parameter (Parameter.default boxes a value)",
                "2-D data for DirectModel/bumps carry no resolution columns (dqx_data = None) so that no smearing is applied"]
 REQUIRED_MONITORS = ["interfaces_agree", "selection_matches_reference_index", "unknown_name_refused"]
-REQUIRED_BUCKETS = {"quick": ["bumps:after-simulate-data", "bumps:attributes-rebound", "bumps:distribution-type-rebound", "value-exactly-on-declared-limit", "bumps:resolution-replaced", "select:limits-equal-to-pixel-radii", "iface:kernel", "iface:DirectModel", "iface:keyword", "iface:sasview", "iface:bumps",
+REQUIRED_BUCKETS = {"quick": ["bumps:after-simulate-data", "bumps:attributes-rebound", "bumps:distribution-type-rebound", "value-exactly-on-declared-limit", "bumps:resolution-replaced", "select:infinite-data-values", "select:limits-equal-to-pixel-radii", "iface:kernel", "iface:DirectModel", "iface:keyword", "iface:sasview", "iface:bumps",
                               "dim:1d", "dim:2d", "multiplicity", "product", "array_distribution", "select:mask",
                               "select:qlimits", "select:nan", "refuse:misspelt", "refuse:foreign", "refuse:pd_suffix", "refuse:bad_attribute",
                               "dispersity-on-vector-element:1d", "refuse:repeated-on-one-object", "sasview:clone-edited",
@@ -384,6 +384,9 @@ def run_select(case, rec):
         y = rng.uniform(1, 2, n)
         nanidx = rng.random(n) < 0.2
         y[nanidx] = np.nan
+        if k % 4 == 2:
+            y[np.flatnonzero(~nanidx)[:2]] = [np.inf, -np.inf]
+            rec.bucket("select:infinite-data-values")
         d = sdata.Data1D(x=x, y=y, dx=np.zeros(n) if k % 4 == 0 else None, dy=np.ones(n))
         mask = rng.random(n) < 0.25
         d.mask = mask | np.isnan(y) if k % 3 else mask.copy()
@@ -399,6 +402,11 @@ def run_select(case, rec):
         qx, qy = rng.uniform(-0.2, 0.2, n), rng.uniform(-0.2, 0.2, n)
         z = rng.uniform(1, 2, n)
         z[rng.random(n) < 0.2] = np.nan
+        if k % 4 == 1:
+            # saturated / divided-by-zero pixels: infinite counts are not NaN, so those pixels are selected
+            z[rng.random(n) < 0.15] = np.inf
+            z[int(rng.integers(n))] = -np.inf
+            rec.bucket("select:infinite-data-values")
         d = sdata.Data2D(x=qx, y=qy, z=z, dz=np.ones(n))
         d.dqx_data = d.dqy_data = None
         d.mask = (rng.random(n) < 0.25)
